@@ -60,6 +60,11 @@ class Impl:
         from primaite.simulator.file_system.file_system_item_abc import FileSystemItemHealthStatus
 
         self.SwH, self.FsH = SoftwareHealthState, FileSystemItemHealthStatus
+        self.host = HOST
+        self.t = 0
+        if "scenario" in case:
+            self._init_scenario(case)
+            return
         nd = case["node"]
         self.sim = Simulation()
         cfg = dict(type="computer", hostname=HOST, ip_address="192.168.1.2", subnet_mask="255.255.255.0",
@@ -96,6 +101,21 @@ class Impl:
         self.folders = list(fs.folders.values())
         self.files = {fo.name: list(fo.files.values()) for fo in self.folders}
         self.t = 0
+
+    def _init_scenario(self, case: dict):
+        """A node of a shipped scenario, built by PrimaiteGame.from_config; the agents never act (only requests and ticks of
+        this rig), the other nodes of the scenario are ticked along."""
+        game = load_scenario(case["scenario"])
+        self.sim = game.simulation
+        self.host = case["host"]
+        self.node = self.sim.network.get_node_by_hostname(self.host)
+        for name, d in case.get("sysfix", {}).items():
+            if name in self.node.software_manager.software:
+                self.node.software_manager.software[name].config.fixing_duration = d
+        fs = self.node.file_system
+        self.sws = list(self.node.services.values()) + list(self.node.applications.values())
+        self.folders = list(fs.folders.values())
+        self.files = {fo.name: list(fo.files.values()) for fo in self.folders}
 
     # -- canonical state
     def sw_fields(self, sw) -> Tuple:
@@ -143,7 +163,7 @@ class Impl:
 
     # -- one operation
     def req(self, *path) -> str:
-        return self.sim.apply_request(["network", "node", HOST, *path]).status
+        return self.sim.apply_request(["network", "node", self.host, *path]).status
 
     def _sw(self, name):
         return next((s for s in self.sws if s.name == name), None)
@@ -292,6 +312,11 @@ def gen_ops(rng: Rng, case: dict, n: int) -> List[List[str]]:
     apps = [s["cls"] for s in case["sw"] if SW_CLASSES[s["cls"]][2]]
     folders = [f["name"] for f in case["folders"]]
     files = {f["name"]: [x["name"] for x in f["files"]] for f in case["folders"]}
+    return gen_ops_for(rng, svcs, apps, folders, files, case["node"]["shut"], n)
+
+
+def gen_ops_for(rng: Rng, svcs: List[str], apps: List[str], folders: List[str], files: Dict[str, List[str]], shut: int,
+                n: int) -> List[List[str]]:
     mode = rng.below(4)  # 0: mixed, 1: software-heavy, 2: file-system-heavy, 3: power-heavy
     ops: List[List[str]] = []
 
@@ -366,7 +391,7 @@ def gen_ops(rng: Rng, case: dict, n: int) -> List[List[str]]:
         if r < 8:
             return ["startup"]
         # `reset` with shut_down_duration 0 leaves is_resetting stuck (F-20, property C12's business): not generated here
-        return ["nodereset"] if case["node"]["shut"] > 0 else ["shutdown"]
+        return ["nodereset"] if shut > 0 else ["shutdown"]
 
     weights = {0: (30, 22, 22, 8, 8, 10), 1: (30, 40, 4, 6, 10, 10), 2: (30, 4, 45, 6, 7, 8), 3: (35, 15, 12, 25, 8, 5)}[mode]
     tot = sum(weights)
@@ -530,3 +555,56 @@ def db_restore_oracle() -> List[dict]:
                         bad.append({"what": f"database service GOOD after {good_at} ticks, expected {max(1, d)}", "d": d,
                                     "scanned": scanned, "deleted": deleted})
     return bad
+
+
+# ------------------------------------------------------------------------------------------ shipped scenarios
+SCENARIOS = ["data_manipulation.yaml", "uc7_config.yaml", "basic_lan_network_example.yaml", "client_server_p2p_network_example.yaml",
+             "multi_lan_internet_network_example.yaml"]
+_INVENTORY: Dict[str, dict] = {}
+
+
+def load_scenario(fname: str):
+    import yaml
+    from harness.lib.core import SRC
+    from primaite.game.game import PrimaiteGame
+    cfg = yaml.safe_load((SRC / "config" / "_package_data" / fname).read_text())
+    with contextlib.redirect_stdout(io.StringIO()):
+        return PrimaiteGame.from_config(cfg)
+
+
+def scenario_inventory(fname: str) -> dict:
+    """host -> what can be addressed on it; hosts whose software names are not unique (F-22: a second instance of a class
+    shadows the first) are listed under "skipped" — the by-name model does not describe them."""
+    if fname in _INVENTORY:
+        return _INVENTORY[fname]
+    from primaite.simulator.network.hardware.nodes.host.host_node import HostNode
+    game = load_scenario(fname)
+    inv = {"hosts": {}, "skipped": []}
+    for node in game.simulation.network.nodes.values():
+        if not isinstance(node, HostNode):
+            continue
+        names = [s.name for s in node.services.values()] + [a.name for a in node.applications.values()]
+        if len(set(names)) != len(names):
+            inv["skipped"].append(node.config.hostname)
+            continue
+        inv["hosts"][node.config.hostname] = {
+            "svcs": [s.name for s in node.services.values() if s.name not in SYS_SVCS],
+            "apps": [a.name for a in node.applications.values() if a.name not in ("web-browser", "nmap")],
+            "folders": [f.name for f in node.file_system.folders.values()],
+            "files": {f.name: [x.name for x in f.files.values()] for f in node.file_system.folders.values()},
+            "shut": node.config.shut_down_duration,
+        }
+    _INVENTORY[fname] = inv
+    return inv
+
+
+def gen_scenario_case(rng: Rng, max_ops: int = 40) -> Optional[dict]:
+    fname = rng.choice(SCENARIOS)
+    inv = scenario_inventory(fname)
+    if not inv["hosts"]:
+        return None
+    host = rng.choice(sorted(inv["hosts"]))
+    h = inv["hosts"][host]
+    sysfix = {n: rng.choice(DURS) for n in SYS_SVCS + SYS_APPS + h["svcs"] + h["apps"] if rng.chance(1, 3)}
+    ops = gen_ops_for(rng, h["svcs"], h["apps"], h["folders"], h["files"], h["shut"], rng.range(6, max_ops))
+    return {"scenario": fname, "host": host, "sysfix": sysfix, "ops": ops}
